@@ -1,9 +1,13 @@
 """Engine 'io' (virtual time): C02 stream fidelity, C16 drain/run protocol, C17 blocking
 behaviour. Data are position-coded; the runner verifies content byte by byte, the oracle
 here checks counts, ordering, end-of-stream placement and waiting against ground truth."""
+import os
+import stat
 from core import (Case, Violation, crash_key, rng_for, EINVAL, EPIPE, ETIMEDOUT, EAGAIN, ENOMEM,
                   INFINITE, R_PIPE, R_DISCARD, R_STDOUT, R_PARENT)
 from model_io import World
+
+NULLDEV = os.makedev(1, 3)
 from scengen import start_tokens, KILL_POLICY
 
 SIZES = [0, 1, 4095, 4096, 4097, 65535, 65536, 65537, 200000, 1000000, 5000000]
@@ -150,7 +154,7 @@ def gen_c16(tier, seed):
         r = rng_for(seed, "c16", i)
         o = {"in": R_PIPE, "out": R_PIPE, "err": r.choice([R_PIPE, R_PIPE, R_PIPE, R_STDOUT, R_PARENT, R_DISCARD]),
              "nb": r.randrange(2), "ignpipe": 1, "stop": KILL_POLICY}
-        kind = i % 8
+        kind = i % 9
         ev = []
         t = 5
         vol = r.choice([0, 1, 100, 4096, 5000, 70000, 300000] + ([1000000] if i % 40 == 0 else []))
@@ -165,7 +169,8 @@ def gen_c16(tier, seed):
         if endk == 0:
             ev.append("E 0 %d X %d" % (t, exit_code))
         elif endk == 1:
-            ev += ["E 0 %d C 1" % t, "E 0 %d C 2" % (t + 10), "E 0 %d X %d" % (t + 60, exit_code)]
+            late = r.choice([60, 60, 200])   # the child outlives its streams: run's stop has to wait for it
+            ev += ["E 0 %d C 1" % t, "E 0 %d C 2" % (t + 10), "E 0 %d X %d" % (t + late, exit_code)]
         elif endk == 2:
             ev += ["E 0 %d C 2" % t, "E 0 %d W 1 50" % (t + 10), "E 0 %d X %d" % (t + 20, exit_code)]
         else:
@@ -194,14 +199,31 @@ def gen_c16(tier, seed):
             o["dl"] = r.choice([10, 30, 1000])
         elif kind == 5:
             sinks = (r.choice(["d", "n", "c"]), r.choice(["d", "n", "c"]))
-        run = kind in (6, 7) or (kind in (1, 2) and r.random() < 0.3)
+        run = kind in (6, 7, 8) or (kind in (1, 2) and r.random() < 0.3)
         parts = list(faults) + ["N 0"]
         if run:
             if kind == 7:
-                o["stop"] = r.choice(["0:0:0:0:0:0", "1:1000:0:0:0:0", "1:-1:0:0:0:0", KILL_POLICY])
+                o["stop"] = r.choice(["0:0:0:0:0:0", "1:1000:0:0:0:0", "1:-1:0:0:0:0", KILL_POLICY,
+                                      "1:10:0:0:0:0", "1:10:1:20:0:0", "1:20:2:1000:0:0"])
                 if r.random() < 0.2:
                     o["prog"] = "missing"
-            o["runex"] = "%s,%s" % sinks
+            if kind == 8:
+                # reproc_run: no sinks; every stream defaults to the parent's unless a shorthand is given
+                o = {"ignpipe": 1, "stop": r.choice([KILL_POLICY, "1:-1:0:0:0:0", "1:10:0:0:0:0"]), "ident": 1}
+                sh = r.randrange(5)
+                if sh == 1:
+                    o["rdiscard"] = 1
+                elif sh == 2:
+                    o["rpath"] = 1
+                elif sh == 3:
+                    o["rfile"] = 1
+                elif sh == 4:
+                    o["rparent"] = 1
+                sinks = ("n", "n")
+                o["runex"] = "plain"
+                meta["plain"] = sh
+            else:
+                o["runex"] = "%s,%s" % sinks
             parts += ev
             parts.append(start_tokens(0, o))
         else:
@@ -216,7 +238,7 @@ def gen_c16(tier, seed):
         meta["handles"] = {0: o}
         meta["sinks"] = sinks
         meta["run"] = run
-        cases.append(Case("c16-%d" % i, " ; ".join(parts), meta, "c16/%d/%s/%s/%d" % (kind, o["err"], run, i)))
+        cases.append(Case("c16-%d" % i, " ; ".join(parts), meta, "c16/%d/%s/%s/%d" % (kind, o.get("err", "d"), run, i)))
     return cases
 
 
@@ -586,6 +608,18 @@ def judge_c16(case, log):
                 continue
         at = at_call.h[0]
         deadline = hs.deadline_abs
+        if ret == ETIMEDOUT and is_run and deadline is None:
+            # run's stop step: the timeout error is right only if every wait of the policy is finite
+            # and the child had not already ended when draining finished
+            obs["run_stop_timeouts"] = obs.get("run_stop_timeouts", 0) + 1
+            pol = [int(x) for x in hs.opts.get("stop", "0:0:0:0:0:0").split(":")]
+            acts = [(pol[k], pol[k + 1]) for k in (0, 2, 4) if pol[k] != 0]
+            drained_by = max([c[4] for c in calls] + [op["t0"]])
+            if not acts or any(to == -1 for _, to in acts):
+                V(vs, "C16", "run-timeout-with-unbounded-stop", "run returned ETIMEDOUT although its stop policy %s waits without limit" % pol)
+            elif hs.end_vt is not None and hs.end_vt < drained_by:
+                V(vs, "C16", "run-timeout-although-child-ended", "run returned ETIMEDOUT, the child had ended at %d, before draining finished (%d)" % (hs.end_vt, drained_by))
+            continue
         if ret == ETIMEDOUT:
             obs["timeouts"] += 1
             if deadline is None:
@@ -621,6 +655,27 @@ def judge_c16(case, log):
                 V(vs, "C16", "string-sink-corrupt", "string content wrong at %s" % s[3])
             if s[2] != exp:
                 V(vs, "C16", "string-sink-length", "string has %d bytes, expected prefix %d + %d received" % (s[2], s[1], exp - s[1]))
+        if is_run and m.get("plain") is not None:
+            obs["plain_runs"] = obs.get("plain_runs", 0) + 1
+            idents = [e for e in log.events if e.get("ev") == "ident"]
+            std = {x[0]: (x[1], x[2]) for x in op.get("std", [])}
+            if idents:
+                fds = {f[0]: f for f in idents[0]["fds"]}
+                for st in range(3):
+                    f = fds.get(st)
+                    ty = hs.rtype[st]
+                    if m["plain"] in (2, 3) and st > 0:
+                        continue   # path/FILE shorthand: C10 checks those objects
+                    if f is None:
+                        V(vs, "C16", "run-stream-missing", "program started by run has no descriptor %d" % st)
+                    elif ty == R_PARENT and st in std and (f[1], f[2]) != std[st]:
+                        V(vs, "C16", "run-default-not-parent-stream", "run without redirect options: the child's descriptor %d is (%s,%s), the parent's is %s" % (st, f[1], f[2], std[st]))
+                    elif ty == R_DISCARD and not (stat.S_ISCHR(f[4]) and f[3] == NULLDEV):
+                        V(vs, "C16", "run-discard-not-nulldev", "run with the discard shorthand: descriptor %d is mode %o rdev %s" % (st, f[4], f[3]))
+                    elif ty == R_PIPE and not stat.S_ISFIFO(f[4]):
+                        V(vs, "C16", "run-pipe-not-pipe", "descriptor %d should be a pipe, mode %o" % (st, f[4]))
+                    else:
+                        obs["plain_streams_checked"] = obs.get("plain_streams_checked", 0) + 1
         if is_run:
             exp_status = hs.end_status
             if ret >= 0:
